@@ -122,7 +122,14 @@ def load_known(prop):
 
 
 def key_matches(pattern: str, key: str) -> bool:
-    """A known-finding key may end with '*' to cover a family of call sites."""
+    """A known-finding key may end with '*' to cover a family of call sites; a pattern of the
+    form '[feature]*' matches every key that carries that structural feature tag among its
+    leading '[...]' tags (a case may carry several)."""
+    if pattern.startswith('[') and pattern.endswith(']*'):
+        import re
+
+        lead = re.match(r'^(\[[^\]]*\])*', key).group(0)
+        return pattern[:-1] in lead
     if pattern.endswith('*'):
         return key.startswith(pattern[:-1])
     return key == pattern
